@@ -98,7 +98,7 @@ inline void common_classes(const Spec& s, Outcome& o) {
 template<class Gen, class Run>
 Property make_spec_property(
     const std::string& id, const std::string& variant, Gen gen, Run run,
-    bool keep_canonical) {
+    bool keep_canonical, bool keep_ids = false) {
     Property p;
     p.id = id;
     p.variant = variant;
@@ -114,10 +114,10 @@ Property make_spec_property(
         lazy = [c]() { return to_json(*c); };
         return run(*c);
     };
-    p.shrinks = [keep_canonical](const json& j) {
+    p.shrinks = [keep_canonical, keep_ids](const json& j) {
         SpecCase c = spec_case_from_json(j);
         std::vector<json> out;
-        for (auto& s : spec_shrinks(c.spec, keep_canonical)) {
+        for (auto& s : spec_shrinks(c.spec, keep_canonical, keep_ids)) {
             out.push_back(to_json(SpecCase{c.cfg, s}));
         }
         if (c.cfg != "chk_vec" && c.spec.id_scheme == "small") {
